@@ -181,11 +181,17 @@ impl<'a> Sess<'a> {
     }
 
     fn live(&self, id: u64) -> bool {
-        self.events.get(&id).map(|e| !e.discarded && !e.released).unwrap_or(false)
+        self.events
+            .get(&id)
+            .map(|e| !e.discarded && !e.released)
+            .unwrap_or(false)
     }
 
     fn count_live_of_type(&self, ty: u8) -> usize {
-        self.events.values().filter(|e| e.rec.ty == ty && !e.discarded && !e.released).count()
+        self.events
+            .values()
+            .filter(|e| e.rec.ty == ty && !e.discarded && !e.released)
+            .count()
     }
 
     fn do_update(&mut self, k: u16, flags_extra: u8) {
@@ -197,11 +203,28 @@ impl<'a> Sess<'a> {
         *ps += 1;
         let ps = *ps;
         self.global_serial += 1;
-        let rec = unique_rec(p.ty, p.index, ps, self.global_serial, flags_extra ^ (ps as u8));
-        let info = self.rig.db(|db| update_point(db, &rec, UpdateOptions::detect_event()));
+        let rec = unique_rec(
+            p.ty,
+            p.index,
+            ps,
+            self.global_serial,
+            flags_extra ^ (ps as u8),
+        );
+        let info = self
+            .rig
+            .db(|db| update_point(db, &rec, UpdateOptions::detect_event()));
         match info {
             UpdateInfo::Created(id) => {
-                self.events.insert(id, EvRec { rec, class: p.class, discarded: false, released: false, carried_by: vec![] });
+                self.events.insert(
+                    id,
+                    EvRec {
+                        rec,
+                        class: p.class,
+                        discarded: false,
+                        released: false,
+                        carried_by: vec![],
+                    },
+                );
             }
             UpdateInfo::Overflow { created, discarded } => {
                 label(&mut self.f, "overflow");
@@ -218,7 +241,16 @@ impl<'a> Sess<'a> {
                         self.fail03("L3-discarded-unknown-event", d);
                     }
                 }
-                self.events.insert(created, EvRec { rec, class: p.class, discarded: false, released: false, carried_by: vec![] });
+                self.events.insert(
+                    created,
+                    EvRec {
+                        rec,
+                        class: p.class,
+                        discarded: false,
+                        released: false,
+                        carried_by: vec![],
+                    },
+                );
                 self.overflowed = true;
             }
             UpdateInfo::NoEvent | UpdateInfo::NoPoint => {}
@@ -234,14 +266,31 @@ impl<'a> Sess<'a> {
     }
 
     /// match one event object on the wire to a live recorded event
-    fn match_event(&self, g: u8, v: u8, index: u32, data: &[u8], cto: Option<(u64, bool)>, taken: &[u64]) -> Result<u64, String> {
+    fn match_event(
+        &self,
+        g: u8,
+        v: u8,
+        index: u32,
+        data: &[u8],
+        cto: Option<(u64, bool)>,
+        taken: &[u64],
+    ) -> Result<u64, String> {
         let ty = match EVENT_GROUP.iter().position(|x| *x == g) {
             Some(t) => t as u8,
-            None => return Err(format!("g{g}v{v} is not an event object of a configured type")),
+            None => {
+                return Err(format!(
+                    "g{g}v{v} is not an event object of a configured type"
+                ))
+            }
         };
         let mut why = String::from("no recorded event of that point");
         for (id, e) in self.events.iter() {
-            if e.rec.ty != ty || e.rec.index as u32 != index || e.discarded || e.released || taken.contains(id) {
+            if e.rec.ty != ty
+                || e.rec.index as u32 != index
+                || e.discarded
+                || e.released
+                || taken.contains(id)
+            {
                 continue;
             }
             if ty == 7 {
@@ -256,7 +305,10 @@ impl<'a> Sess<'a> {
                 None => return Err(format!("g{g}v{v} is not decodable as a measurement")),
             };
             if m.flags != Some(e.rec.flags) {
-                why = format!("flags {:?} differ from recorded {:#04x}", m.flags, e.rec.flags);
+                why = format!(
+                    "flags {:?} differ from recorded {:#04x}",
+                    m.flags, e.rec.flags
+                );
                 continue;
             }
             let val_ok = match m.val {
@@ -281,7 +333,12 @@ impl<'a> Sess<'a> {
                             }
                             base + t
                         }
-                        None => return Err("relative-time event without a preceding common time of occurrence".into()),
+                        None => {
+                            return Err(
+                                "relative-time event without a preceding common time of occurrence"
+                                    .into(),
+                            )
+                        }
                     }
                 } else {
                     t
@@ -313,7 +370,11 @@ impl<'a> Sess<'a> {
     }
 
     /// hand over queued transmissions up to and including the first fragment for which `stop` holds
-    fn drain_tx_until(&mut self, tx: &mut std::collections::VecDeque<Tx>, stop: impl Fn(&[u8]) -> bool) {
+    fn drain_tx_until(
+        &mut self,
+        tx: &mut std::collections::VecDeque<Tx>,
+        stop: impl Fn(&[u8]) -> bool,
+    ) {
         let pos = tx.iter().position(|t| match t {
             Tx::Fragment { bytes, .. } => stop(bytes),
             _ => false,
@@ -350,7 +411,12 @@ impl<'a> Sess<'a> {
                         self.f.nontrivial_c14 = true;
                     }
                     if early {
-                        self.fail14("U4-retry-before-timeout", format!("unsolicited seq {seq} re-sent before its confirm timeout expired"));
+                        self.fail14(
+                            "U4-retry-before-timeout",
+                            format!(
+                                "unsolicited seq {seq} re-sent before its confirm timeout expired"
+                            ),
+                        );
                     }
                     if is_null {
                         self.fail14("U1-null-response-not-regenerated", format!("the empty start-up unsolicited response seq {seq} was re-sent unchanged instead of with a fresh sequence number"));
@@ -373,7 +439,14 @@ impl<'a> Sess<'a> {
             Ok(h) => h,
             Err(WalkErr::Undefined(..)) => vec![],
             Err(e) => {
-                self.fail03("unparsable-response", format!("reference walker: {:?} {:02x?}", e, &bytes[..bytes.len().min(64)]));
+                self.fail03(
+                    "unparsable-response",
+                    format!(
+                        "reference walker: {:?} {:02x?}",
+                        e,
+                        &bytes[..bytes.len().min(64)]
+                    ),
+                );
                 return;
             }
         };
@@ -394,7 +467,10 @@ impl<'a> Sess<'a> {
                 match self.match_event(h.g, h.v, o.index.unwrap_or(0), &o.data, cto, &ids) {
                     Ok(id) => {
                         if ids.contains(&id) {
-                            self.fail03("L3-event-twice-in-one-fragment", format!("event {id} appears twice in fragment #{no}"));
+                            self.fail03(
+                                "L3-event-twice-in-one-fragment",
+                                format!("event {id} appears twice in fragment #{no}"),
+                            );
                         }
                         if let Some(last) = ids.last() {
                             if id < *last {
@@ -406,7 +482,11 @@ impl<'a> Sess<'a> {
                     Err(why) => {
                         let d = format!(
                             "fragment #{no} ({}) carries g{}v{} index {:?} data {:02x?}: {why}",
-                            if unsol { "unsolicited" } else { "solicited" }, h.g, h.v, o.index, o.data
+                            if unsol { "unsolicited" } else { "solicited" },
+                            h.g,
+                            h.v,
+                            o.index,
+                            o.data
                         );
                         self.fail03("L3/L5-event-object-matches-no-live-record", d);
                     }
@@ -418,7 +498,12 @@ impl<'a> Sess<'a> {
                 e.carried_by.push(no);
             }
         }
-        self.frags.push(FragRec { unsol, seq: f.seq, ids: ids.clone(), bytes: bytes.clone() });
+        self.frags.push(FragRec {
+            unsol,
+            seq: f.seq,
+            ids: ids.clone(),
+            bytes: bytes.clone(),
+        });
         // a newly built response of one kind ends the previous series of that kind; the answer to a READ that
         // had been deferred behind an unsolicited response shows that this unsolicited series is over as well
         self.expire_at(t);
@@ -485,9 +570,23 @@ impl<'a> Sess<'a> {
             self.disable_answered();
         }
         if unsol {
-            self.out_unsol = Some(Outstanding { frag: no, seq: f.seq, t_tx: t, uncertain: false, retries: 0, is_null: f.objects.is_empty() });
+            self.out_unsol = Some(Outstanding {
+                frag: no,
+                seq: f.seq,
+                t_tx: t,
+                uncertain: false,
+                retries: 0,
+                is_null: f.objects.is_empty(),
+            });
         } else if f.con {
-            self.out_sol = Some(Outstanding { frag: no, seq: f.seq, t_tx: t, uncertain: built_in_unsol_wait, retries: 0, is_null: false });
+            self.out_sol = Some(Outstanding {
+                frag: no,
+                seq: f.seq,
+                t_tx: t,
+                uncertain: built_in_unsol_wait,
+                retries: 0,
+                is_null: false,
+            });
         }
     }
 
@@ -506,7 +605,13 @@ impl<'a> Sess<'a> {
                 self.unsol_failed_at = Some(t);
             }
             if o.seq == f.seq {
-                self.fail14("U4-retry-not-identical", format!("unsolicited sequence number {} re-used with different content", f.seq));
+                self.fail14(
+                    "U4-retry-not-identical",
+                    format!(
+                        "unsolicited sequence number {} re-used with different content",
+                        f.seq
+                    ),
+                );
             }
         }
         if !self.startup_done && !is_null {
@@ -514,7 +619,10 @@ impl<'a> Sess<'a> {
         }
         if let Some(ls) = self.last_unsol_seq {
             if f.seq != (ls + 1) & 0x0F {
-                self.fail14("U1-sequence-not-fresh", format!("new unsolicited response uses seq {} after {}", f.seq, ls));
+                self.fail14(
+                    "U1-sequence-not-fresh",
+                    format!("new unsolicited response uses seq {} after {}", f.seq, ls),
+                );
             }
         }
         self.last_unsol_seq = Some(f.seq);
@@ -535,7 +643,13 @@ impl<'a> Sess<'a> {
 
     /// U8: nothing stands in the way of an unsolicited response, so one must be outstanding
     fn check_progress(&mut self) {
-        if !self.case.unsolicited || !self.startup_done || !self.rig.connected() || self.out_unsol.is_some() || self.out_sol.is_some() || self.deferred_read_seq.is_some() {
+        if !self.case.unsolicited
+            || !self.startup_done
+            || !self.rig.connected()
+            || self.out_unsol.is_some()
+            || self.out_sol.is_some()
+            || self.deferred_read_seq.is_some()
+        {
             return;
         }
         if !self.pending_enable.is_empty() {
@@ -552,7 +666,17 @@ impl<'a> Sess<'a> {
                 return;
             }
         }
-        let waiting: Vec<u64> = self.events.iter().filter(|(_, e)| !e.discarded && !e.released && e.class >= 1 && self.enabled & (1 << (e.class - 1)) != 0).map(|(id, _)| *id).collect();
+        let waiting: Vec<u64> = self
+            .events
+            .iter()
+            .filter(|(_, e)| {
+                !e.discarded
+                    && !e.released
+                    && e.class >= 1
+                    && self.enabled & (1 << (e.class - 1)) != 0
+            })
+            .map(|(id, _)| *id)
+            .collect();
         if !waiting.is_empty() {
             self.fail14(
                 "U8-no-unsolicited-progress",
@@ -579,9 +703,17 @@ impl<'a> Sess<'a> {
         }
         in_flight.extend(self.frags[no].ids.iter().copied());
         for (class, bit) in [(1u8, iin1::CLASS_1), (2, iin1::CLASS_2), (3, iin1::CLASS_3)] {
-            let live = |id: &u64, e: &EvRec| e.class == class && !e.discarded && !e.released && !in_flight.contains(id);
-            let sure = self.events.iter().any(|(id, e)| live(id, e) && !dont_care.contains(id));
-            let maybe = self.events.iter().any(|(id, e)| live(id, e) && dont_care.contains(id));
+            let live = |id: &u64, e: &EvRec| {
+                e.class == class && !e.discarded && !e.released && !in_flight.contains(id)
+            };
+            let sure = self
+                .events
+                .iter()
+                .any(|(id, e)| live(id, e) && !dont_care.contains(id));
+            let maybe = self
+                .events
+                .iter()
+                .any(|(id, e)| live(id, e) && dont_care.contains(id));
             if !sure && maybe {
                 continue;
             }
@@ -592,7 +724,10 @@ impl<'a> Sess<'a> {
                     "response #{no} (seq {}, {}) reports CLASS_{class}_EVENTS={got}, but the buffer {} events of that class outside responses awaiting confirmation",
                     f.seq, if f.func == func::UNSOLICITED_RESPONSE { "unsolicited" } else { "solicited" }, if expect { "holds" } else { "holds no" }
                 );
-                let sig = format!("C13 class-bit expected={expect} after_failed_unsol_series={}", self.unsol_series_failed);
+                let sig = format!(
+                    "C13 class-bit expected={expect} after_failed_unsol_series={}",
+                    self.unsol_series_failed
+                );
                 if self.f.c13.is_none() {
                     self.f.c13 = Some(Fail::new("I-class-events-available", d).with_sig(sig));
                 }
@@ -608,10 +743,23 @@ impl<'a> Sess<'a> {
             self.fail03("L7-overflow-not-reported", format!("events were discarded by an overflow, but response #{no} does not report EVENT_BUFFER_OVERFLOW"));
         }
         if got_ovf != self.overflowed {
-            self.fail13("I-overflow", format!("response #{no} reports EVENT_BUFFER_OVERFLOW={got_ovf}, model says {}", self.overflowed));
+            self.fail13(
+                "I-overflow",
+                format!(
+                    "response #{no} reports EVENT_BUFFER_OVERFLOW={got_ovf}, model says {}",
+                    self.overflowed
+                ),
+            );
         }
         if (i1 & iin1::RESTART != 0) != self.restart {
-            self.fail13("I-restart", format!("response #{no} reports RESTART={}, model says {}", i1 & iin1::RESTART != 0, self.restart));
+            self.fail13(
+                "I-restart",
+                format!(
+                    "response #{no} reports RESTART={}, model says {}",
+                    i1 & iin1::RESTART != 0,
+                    self.restart
+                ),
+            );
         }
         let got_b = i1 & iin1::BROADCAST != 0;
         if self.broadcast_uncertain {
@@ -620,7 +768,13 @@ impl<'a> Sess<'a> {
                 self.broadcast_uncertain = false;
             }
         } else if got_b != self.broadcast_pending.is_some() {
-            self.fail13("I-broadcast", format!("response #{no} reports BROADCAST={got_b}, model says pending={:?}", self.broadcast_pending));
+            self.fail13(
+                "I-broadcast",
+                format!(
+                    "response #{no} reports BROADCAST={got_b}, model says pending={:?}",
+                    self.broadcast_pending
+                ),
+            );
         }
         if let Some(mode) = self.broadcast_pending {
             // reported: cleared unless confirmation is mandatory
@@ -631,13 +785,31 @@ impl<'a> Sess<'a> {
             }
         }
         let app = self.app_iin;
-        for (bit, mask, name) in [(0x01u8, iin1::NEED_TIME, "NEED_TIME"), (0x02, iin1::LOCAL_CONTROL, "LOCAL_CONTROL"), (0x04, iin1::DEVICE_TROUBLE, "DEVICE_TROUBLE")] {
+        for (bit, mask, name) in [
+            (0x01u8, iin1::NEED_TIME, "NEED_TIME"),
+            (0x02, iin1::LOCAL_CONTROL, "LOCAL_CONTROL"),
+            (0x04, iin1::DEVICE_TROUBLE, "DEVICE_TROUBLE"),
+        ] {
             if (i1 & mask != 0) != (app & bit != 0) {
-                self.fail13("I-application-bits", format!("response #{no}: {name}={} but the application says {}", i1 & mask != 0, app & bit != 0));
+                self.fail13(
+                    "I-application-bits",
+                    format!(
+                        "response #{no}: {name}={} but the application says {}",
+                        i1 & mask != 0,
+                        app & bit != 0
+                    ),
+                );
             }
         }
         if (i2 & iin2::CONFIG_CORRUPT != 0) != (app & 0x08 != 0) {
-            self.fail13("I-application-bits", format!("response #{no}: CONFIG_CORRUPT={} but the application says {}", i2 & iin2::CONFIG_CORRUPT != 0, app & 0x08 != 0));
+            self.fail13(
+                "I-application-bits",
+                format!(
+                    "response #{no}: CONFIG_CORRUPT={} but the application says {}",
+                    i2 & iin2::CONFIG_CORRUPT != 0,
+                    app & 0x08 != 0
+                ),
+            );
         }
     }
 
@@ -660,10 +832,17 @@ impl<'a> Sess<'a> {
             }
             match cb {
                 Cb::EnterUnsolConfirmWait(seq) => {
-                    self.drain_tx_until(&mut tx, |b| b.len() >= 2 && b[1] == func::UNSOLICITED_RESPONSE && b[0] & 0x0F == seq);
+                    self.drain_tx_until(&mut tx, |b| {
+                        b.len() >= 2 && b[1] == func::UNSOLICITED_RESPONSE && b[0] & 0x0F == seq
+                    });
                 }
                 Cb::EnterSolConfirmWait(seq) => {
-                    self.drain_tx_until(&mut tx, |b| b.len() >= 2 && b[1] == func::RESPONSE && b[0] & 0x0F == seq && b[0] & 0x20 != 0);
+                    self.drain_tx_until(&mut tx, |b| {
+                        b.len() >= 2
+                            && b[1] == func::RESPONSE
+                            && b[0] & 0x0F == seq
+                            && b[0] & 0x20 != 0
+                    });
                 }
                 Cb::Broadcast(_, _) => {
                     if let Some(mode) = self.sent_broadcasts.pop_front() {
@@ -686,17 +865,28 @@ impl<'a> Sess<'a> {
                 }
                 Cb::EventCleared(id) => {
                     if !in_bracket {
-                        self.fail03("L1-release-outside-bracket", format!("event_cleared({id}) outside begin_confirm/end_confirm"));
+                        self.fail03(
+                            "L1-release-outside-bracket",
+                            format!("event_cleared({id}) outside begin_confirm/end_confirm"),
+                        );
                     }
-                    let carried = confirmed.map(|(f, _)| self.frags[f].ids.contains(&id)).unwrap_or(false);
+                    let carried = confirmed
+                        .map(|(f, _)| self.frags[f].ids.contains(&id))
+                        .unwrap_or(false);
                     let (known, released, discarded) = match self.events.get(&id) {
                         Some(e) => (true, e.released, e.discarded),
                         None => (false, false, false),
                     };
                     if !known {
-                        self.fail03("L3-cleared-unknown-event", format!("event_cleared({id}) for an id never reported by an update"));
+                        self.fail03(
+                            "L3-cleared-unknown-event",
+                            format!("event_cleared({id}) for an id never reported by an update"),
+                        );
                     } else if released {
-                        self.fail03("L2-released-twice", format!("event {id} released a second time"));
+                        self.fail03(
+                            "L2-released-twice",
+                            format!("event {id} released a second time"),
+                        );
                     } else if !carried {
                         let last = self.events[&id].carried_by.last().copied();
                         let what = match last {
@@ -723,7 +913,12 @@ impl<'a> Sess<'a> {
                     in_bracket = false;
                     if let Some((f, _)) = confirmed {
                         // L2: everything the confirmed fragment carried is released now
-                        let missing: Vec<u64> = self.frags[f].ids.iter().copied().filter(|id| self.live(*id)).collect();
+                        let missing: Vec<u64> = self.frags[f]
+                            .ids
+                            .iter()
+                            .copied()
+                            .filter(|id| self.live(*id))
+                            .collect();
                         if !missing.is_empty() {
                             self.fail03("L2-confirmed-events-not-released", format!("fragment #{f} was confirmed but events {:?} it carried were not released", missing));
                         }
@@ -906,7 +1101,13 @@ impl<'a> Sess<'a> {
 
     async fn step_inner(&mut self, op: &Op) {
         if std::env::var("VERIF_TRACE").is_ok() {
-            println!("[op @{}] {:?}   out_sol={:?} out_unsol={:?}", self.rig.now_ms(), op, self.out_sol, self.out_unsol);
+            println!(
+                "[op @{}] {:?}   out_sol={:?} out_unsol={:?}",
+                self.rig.now_ms(),
+                op,
+                self.out_sol,
+                self.out_unsol
+            );
         }
         match op {
             Op::Update(k, fl) => {
@@ -916,7 +1117,11 @@ impl<'a> Sess<'a> {
             Op::Read(kind) => {
                 let f = self.read_request(kind);
                 self.note_request_sent(func::READ);
-                self.deferred_read_seq = if self.out_unsol.is_some() { Some(f.seq) } else { None };
+                self.deferred_read_seq = if self.out_unsol.is_some() {
+                    Some(f.seq)
+                } else {
+                    None
+                };
                 self.rig.send(&f);
                 self.settle_and_process(None).await;
             }
@@ -951,7 +1156,9 @@ impl<'a> Sess<'a> {
                             self.unsol_failed_at = None;
                         }
                         was_deferred = self.deferred_read_seq;
-                    } else if self.out_unsol.as_ref().map(|o| !o.is_null).unwrap_or(false) && !self.frags[frag].ids.is_empty() {
+                    } else if self.out_unsol.as_ref().map(|o| !o.is_null).unwrap_or(false)
+                        && !self.frags[frag].ids.is_empty()
+                    {
                         // confirmed or failed at this very instant: the retry delay may or may not apply
                         self.unsol_failed_at = None;
                         self.delay_uncertain_until = Some(self.rig.now_ms() + RETRY_DELAY);
@@ -997,7 +1204,9 @@ impl<'a> Sess<'a> {
                 let f = match k % 3 {
                     0 => Fragment::request(seq, func::DELAY_MEASURE, vec![]),
                     1 => Fragment::request(seq, func::RECORD_CURRENT_TIME, vec![]),
-                    _ => Fragment::request(seq, func::WRITE, ra::h_count8(50, 1, 1, &ra::u48(12345))),
+                    _ => {
+                        Fragment::request(seq, func::WRITE, ra::h_count8(50, 1, 1, &ra::u48(12345)))
+                    }
                 };
                 self.note_request_sent(f.func);
                 self.rig.send(&f);
@@ -1022,7 +1231,10 @@ impl<'a> Sess<'a> {
                         self.delay_uncertain_until = Some(self.rig.now_ms() + RETRY_DELAY);
                     }
                 }
-                for o in [self.out_sol.take(), self.out_unsol.take()].into_iter().flatten() {
+                for o in [self.out_sol.take(), self.out_unsol.take()]
+                    .into_iter()
+                    .flatten()
+                {
                     if !self.frags[o.frag].ids.is_empty() {
                         self.unconfirmed_carrier_seen = true;
                         label(&mut self.f, "reconnect_with_events_in_flight");
@@ -1054,7 +1266,11 @@ impl<'a> Sess<'a> {
             }
             Op::WriteRestart(v) => {
                 let seq = self.next_seq();
-                let f = Fragment::request(seq, func::WRITE, ra::h_range8(80, 1, 7, 7, &[if *v { 0x01 } else { 0x00 }]));
+                let f = Fragment::request(
+                    seq,
+                    func::WRITE,
+                    ra::h_range8(80, 1, 7, 7, &[if *v { 0x01 } else { 0x00 }]),
+                );
                 self.note_request_sent(f.func);
                 self.rig.send(&f);
                 self.settle_and_process(None).await;
@@ -1062,7 +1278,12 @@ impl<'a> Sess<'a> {
             Op::SetAppIin(bits) => {
                 self.app_iin = bits & 0x0F;
                 let b = self.app_iin;
-                self.rig.shared.beh.lock().unwrap().iin = ApplicationIin { need_time: b & 1 != 0, local_control: b & 2 != 0, device_trouble: b & 4 != 0, config_corrupt: b & 8 != 0 };
+                self.rig.shared.beh.lock().unwrap().iin = ApplicationIin {
+                    need_time: b & 1 != 0,
+                    local_control: b & 2 != 0,
+                    device_trouble: b & 4 != 0,
+                    config_corrupt: b & 8 != 0,
+                };
             }
         }
     }
@@ -1099,7 +1320,10 @@ impl<'a> Sess<'a> {
                 // no answer (e.g. an unsolicited null response is pending): let time pass
                 self.step(&Op::Advance(2, 0)).await;
                 if self.frags.len() == before {
-                    self.fail03("L6-poll-not-answered", "a class poll in an otherwise idle session was not answered".to_string());
+                    self.fail03(
+                        "L6-poll-not-answered",
+                        "a class poll in an otherwise idle session was not answered".to_string(),
+                    );
                     return;
                 }
                 continue;
@@ -1109,9 +1333,17 @@ impl<'a> Sess<'a> {
                 break;
             }
         }
-        let left: Vec<u64> = self.events.iter().filter(|(_, e)| !e.discarded && !e.released).map(|(id, _)| *id).collect();
+        let left: Vec<u64> = self
+            .events
+            .iter()
+            .filter(|(_, e)| !e.discarded && !e.released)
+            .map(|(id, _)| *id)
+            .collect();
         if !left.is_empty() {
-            let never: Vec<&u64> = left.iter().filter(|id| self.events[id].carried_by.is_empty()).collect();
+            let never: Vec<&u64> = left
+                .iter()
+                .filter(|id| self.events[id].carried_by.is_empty())
+                .collect();
             self.fail03(
                 "L6-events-not-kept-on-offer",
                 format!("after draining every class with confirmed polls, events {:?} were neither reported as released nor as discarded ({} of them were never transmitted)", left, never.len()),
@@ -1146,7 +1378,16 @@ pub async fn run_history(case: &Case, c13_ops: bool) -> Findings {
         seq: 0,
         point_serial: BTreeMap::new(),
         global_serial: 0,
-        f: Findings { c03: None, c13: None, c14: None, nontrivial_c14: false, common: None, labels: vec![], nontrivial_c03: false, nontrivial_c13: false },
+        f: Findings {
+            c03: None,
+            c13: None,
+            c14: None,
+            nontrivial_c14: false,
+            common: None,
+            labels: vec![],
+            nontrivial_c03: false,
+            nontrivial_c13: false,
+        },
         overflowed: false,
         restart: true,
         broadcast_pending: None,
@@ -1209,18 +1450,43 @@ pub fn case_strategy(c13: bool, max_ops: usize) -> BoxedStrategy<Case> {
         1 => (0u8..8).prop_map(ReadKind::Integrity),
     ];
     let mut ops: Vec<(u32, BoxedStrategy<Op>)> = vec![
-        (8, (any::<u16>(), any::<u8>()).prop_map(|(k, f)| Op::Update(k, f)).boxed()),
+        (
+            8,
+            (any::<u16>(), any::<u8>())
+                .prop_map(|(k, f)| Op::Update(k, f))
+                .boxed(),
+        ),
         (4, read.prop_map(Op::Read).boxed()),
-        (3, (prop_oneof![4 => Just(true), 1 => Just(false)], any::<u8>()).prop_map(|(r, d)| Op::ConfirmSol(r, d)).boxed()),
-        (3, (prop_oneof![4 => Just(true), 1 => Just(false)], any::<u8>()).prop_map(|(r, d)| Op::ConfirmUnsol(r, d)).boxed()),
-        (4, (0u8..5, any::<u16>()).prop_map(|(w, ms)| Op::Advance(w, ms)).boxed()),
+        (
+            3,
+            (prop_oneof![4 => Just(true), 1 => Just(false)], any::<u8>())
+                .prop_map(|(r, d)| Op::ConfirmSol(r, d))
+                .boxed(),
+        ),
+        (
+            3,
+            (prop_oneof![4 => Just(true), 1 => Just(false)], any::<u8>())
+                .prop_map(|(r, d)| Op::ConfirmUnsol(r, d))
+                .boxed(),
+        ),
+        (
+            4,
+            (0u8..5, any::<u16>())
+                .prop_map(|(w, ms)| Op::Advance(w, ms))
+                .boxed(),
+        ),
         (1, any::<u8>().prop_map(Op::Abort).boxed()),
         (2, (1u8..8).prop_map(Op::EnableUnsol).boxed()),
         (1, (1u8..8).prop_map(Op::DisableUnsol).boxed()),
         (1, Just(Op::Reconnect).boxed()),
     ];
     if c13 {
-        ops.push((2, (0u8..3, any::<u8>()).prop_map(|(m, k)| Op::Broadcast(m, k)).boxed()));
+        ops.push((
+            2,
+            (0u8..3, any::<u8>())
+                .prop_map(|(m, k)| Op::Broadcast(m, k))
+                .boxed(),
+        ));
         ops.push((1, any::<bool>().prop_map(Op::WriteRestart).boxed()));
         ops.push((1, (0u8..16).prop_map(Op::SetAppIin).boxed()));
     }
@@ -1235,18 +1501,29 @@ pub fn case_strategy(c13: bool, max_ops: usize) -> BoxedStrategy<Case> {
         prop_oneof![2 => Just(249u16), 1 => 249u16..400, 1 => Just(2048u16)],
         proptest::collection::vec(op, 1..max_ops),
     )
-        .prop_map(|(mut points, eb, unsolicited, confirm_null, retries, sol_tx, unsol_tx, ops)| {
-            // one specification per (type, index); every point reports events
-            points.sort_by_key(|p| (p.ty, p.index));
-            points.dedup_by_key(|p| (p.ty, p.index));
-            for p in points.iter_mut() {
-                if p.class == 0 {
-                    p.class = 1 + (p.index % 3) as u8;
+        .prop_map(
+            |(mut points, eb, unsolicited, confirm_null, retries, sol_tx, unsol_tx, ops)| {
+                // one specification per (type, index); every point reports events
+                points.sort_by_key(|p| (p.ty, p.index));
+                points.dedup_by_key(|p| (p.ty, p.index));
+                for p in points.iter_mut() {
+                    if p.class == 0 {
+                        p.class = 1 + (p.index % 3) as u8;
+                    }
                 }
-            }
-            let mut event_buffer = [0u16; 8];
-            event_buffer.copy_from_slice(&eb);
-            Case { points, event_buffer, unsolicited, confirm_null, retries, sol_tx, unsol_tx, ops }
-        })
+                let mut event_buffer = [0u16; 8];
+                event_buffer.copy_from_slice(&eb);
+                Case {
+                    points,
+                    event_buffer,
+                    unsolicited,
+                    confirm_null,
+                    retries,
+                    sol_tx,
+                    unsol_tx,
+                    ops,
+                }
+            },
+        )
         .boxed()
 }
